@@ -8,6 +8,9 @@ hooks = subprocess.run(["git", "-C", "/repo", "log", "--format=%H %s", "--grep=^
 TRACE_NOTE = ("Trusted: the numpy oracle harness/oracle (mirror of specs/math, never imports skglm), the order-preserving rank "
               "encoding, TLC, float64 arithmetic, tolerances of DESIGN 5.2. Exhaustive only within the constants of each TLC config; "
               "real-float coverage is sampling driven by TLC-generated scenario structure (seeded by VERIF_SEED).")
+REL_NOTE = ("Trusted: harness/oracle objective; for C02 the reference implementations (scikit-learn, celer 0.7.4, scipy linprog). "
+            "Pairs are compared when both runs report convergence; problems are tall and well conditioned so that minimisers are "
+            "unique where coefficients are compared.")
 CHECKS = {
  "C01": dict(tech="TLA+ design model CDCore (TLC exhaustive) + TLC-generated scenarios replayed on the real solvers + trace validation by the SolverTrace monitor spec (clauses cert, cert_outer against an independent oracle)",
              text="Model checking of the working-set CD design (CertSound, Consistent over every budget, working-set tie-break, warm support, unpenalised set) and trace validation: every real run's events are judged by TLC; a stopping value <= tol must be matched by the first-order violation recomputed from X, y, w alone.", ref="6 C01"),
